@@ -25,7 +25,7 @@ UFUNCS = ["add", "multiply", "logical_and", "logical_or", "logical_xor", "bitwis
 MODES = ["method", "np", "ufunc.reduce", "axisNone", "keepdims", "np-keepdims", "ufunc-keepdims", "axis1"]
 FLOOR_TAGS = ["mode:" + m for m in MODES] + ["f:" + f for f in NAMED + UFUNCS] + ["kind:b", "kind:i", "kind:u", "kind:f", "norows", "allempty", "e-first", "e-last", "e-mid", "e-consec", "e-none", "trailing-run"]
 FLOOR_MONITORS = ["c05:compare", "c05:identity-for-empty-row", "inv:ragged"]
-N_RANDOM = {"quick": 12000, "thorough": 500000}
+N_RANDOM = {"quick": 36000, "thorough": 500000}
 
 
 def setup(lib):
